@@ -1,12 +1,14 @@
 """C20: real-space symmetrisation yields a symmetric, Hermitian model.
 
 spec  : SymOrbits.tla (space-group operations (W integer, t rational) on sites and hopping triples (R, a, b); site maps,
-        integer shifts T, orbits, irreducible triples, which projection shells are admissible), MC_SymOrbits.tla (a
-        catalogue of structures, one TLC state each, group/action/orbit invariants), SymOrbitsRec.tla (record validation)
-bind  : spec -> code : for every structure the real irrep space group is matched operation by operation; the real
-        SymmetrizerSAWF / SymWann index maps (atommap, T, get_atom_R_map, find_irreducible_Rab) are compared exactly
-        with the specification's; System_R.symmetrize is run on random Hermitian starting models over the
-        specification's structures x admissible projection sets x soc (x magnetic moments) and checked numerically.
+        integer shifts T, orbits, irreducible triples, which projection shells are admissible; orthogonal lattices and the
+        hexagonal cell, where W is not the Cartesian matrix), MC_SymOrbits.tla (a catalogue of structures, one TLC state each,
+        group/action/orbit invariants), SymOrbitsRec.tla (record validation)
+bind  : spec -> code : for every replayed structure the real irrep space group is matched operation by operation; the real
+        SymmetrizerSAWF / SymWann index maps are compared with the specification's (site maps exactly, shifts up to a global
+        sign, images of hopping triples exactly, find_irreducible_Rab as "every orbit is represented"); System_R.symmetrize
+        is run on random Hermitian starting models over the specification's structures x admissible projection sets x soc
+        (x magnetic moments) and checked numerically under every operation of the specification's group.
         code -> spec : structures outside the catalogue (3 sites, all positions with denominator 4) are recorded from
         the real code (operations, maps, triple images, irreducible triples) together with the residual buckets of
         symmetrize runs and validated by TLC.
@@ -16,36 +18,45 @@ import random
 import warnings
 import numpy as np
 
-from .. import tlc, ftable
+from .. import ftable
 from ..common import Report, MachineryError, seed, quiet
 from . import _symcommon as sc
 
+TOL = 1e-8
+TOL_BERRY = 1e-5      # 1/gap^2 amplification at gaps down to MIN_GAP: observed up to 8e-10 at gaps >= 0.01, genuine failures are > 1e-3
+MIN_GAP = 0.02
+
 PROPS = {
     "C20": dict(level="exploration",
-                technique="TLC exhaustive on SymOrbits/MC_SymOrbits (space groups of a catalogue of structures on orthogonal lattices incl. "
-                          "non-symmorphic and magnetic ones; group axioms, site permutation, triple action, orbit partition, irreducible "
-                          "representatives, Hermitian partner) + exact replay on SymmetrizerSAWF/SymWann index maps + numeric checks of "
-                          "System_R.symmetrize on random Hermitian models + TLC validation of recorded maps and residual buckets",
+                technique="TLC exhaustive on SymOrbits/MC_SymOrbits (space groups of a catalogue of structures on orthogonal lattices and on the "
+                          "hexagonal cell, incl. operations with fractional translations and magnetic ones; group axioms, site permutation, "
+                          "triple action, orbit partition, irreducible representatives, Hermitian partner) + replay on SymmetrizerSAWF/SymWann "
+                          "index maps + numeric checks of System_R.symmetrize on random Hermitian models + TLC validation of recorded maps and "
+                          "residual buckets",
                 text="The specification decides exactly the space group of each structure, the site permutation and lattice shifts of every "
-                     "operation, the image of every hopping triple (R,a,b), the orbit partition and the irreducible representatives that "
-                     "find_irreducible_Rab must return, and which projection shells a site set admits. After the real symmetrize on random "
-                     "Hermitian models: E(gk) = E(k), Berry curvature and spin at gk equal the transformed values for every g of the "
-                     "resulting point group (transformations applied by the harness from the specification's (W, time reversal)), "
-                     "X(-R) = X(R)^dagger, centres map onto their images, a second symmetrisation changes nothing (1e-8, Berry curvature 1e-5; observed 1e-14 resp. 8e-10).",
-                note="exact in TLA+: groups, site maps, shifts, triple maps, orbits, irreducible sets, shell admissibility. numeric: everything "
-                     "about the symmetrised matrices (energies/curvature/spin covariance, Hermiticity, idempotence, centres). Lattices are "
-                     "orthogonal (cubic, tetragonal, orthorhombic; hexagonal cells are not modelled), positions have denominator 4, starting "
-                     "centres lie within 0.05 of the atomic sites; k-points with near-degenerate bands are skipped (named in the evidence). Hybrids must be "
-                     "permuted by every operation (SymOrbits!ShellAllowed). FINDING (key System_R.symmetrize:mixed_centres): shells given in the d basis "
+                     "operation, the image of every hopping triple (R,a,b), the orbit partition (find_irreducible_Rab must return listed "
+                     "triples that represent every orbit; which representative is the implementation's choice), and which projection shells "
+                     "a site set admits. After the real symmetrize on random Hermitian models: E(gk) = E(k), Berry curvature and spin at gk "
+                     "equal the transformed values for every g of the resulting point group (transformations applied by the harness from the "
+                     "specification's (W, time reversal), summed over degenerate groups), X(-R) = X(R)^dagger, centres map onto their images, "
+                     "a second symmetrisation changes nothing (1e-8, Berry curvature 1e-5 at band gaps >= 0.02; observed 1e-14 resp. 8e-10).",
+                note="exact in TLA+: groups, site maps, shifts, triple maps, orbits, shell admissibility. numeric: everything "
+                     "about the symmetrised matrices (energies/curvature/spin covariance, Hermiticity, idempotence, centres). Lattices: "
+                     "cubic, tetragonal, orthorhombic, hexagonal (sites with denominator 4, i.e. no 1/3 positions); starting "
+                     "centres lie within 0.05 of the atomic sites; k-points with near-degenerate split bands are skipped (named in the evidence). Hybrids must be "
+                     "permuted by every operation (SymOrbits!ShellAllowed; on the hexagonal cell only s, p, d, pz are used). Quick: 10 replayed "
+                     "structures (tetragonal, hexagonal, one cubic C3v, 2 magnetic), about 14 symmetrize runs, 8 recorded structures; thorough: the whole "
+                     "catalogue. FINDING (key System_R.symmetrize:mixed_centres): shells given in the d basis "
                      "(d, eg) on a polar site whose group mixes dz2 and dx2-y2 (e.g. C3v along [111]) are not symmetrised exactly: centres are "
-                     "treated per orbital, the internal Berry curvature is not covariant and a second symmetrisation moves the centres; "
+                     "treated per orbital, the internal Berry curvature is not covariant and a second symmetrisation moves the centres; every "
+                     "curvature/centre/idempotence failure of that input class is filed under this key; "
                      "reproduction: python -m harness.props._c20_repro.",
                 ref="DESIGN.md 3.7"),
 }
 
-TOL = 1e-8
-TOL_BERRY = 1e-5      # 1/gap^2 amplification at gaps down to 0.01: observed up to 8e-10 on admissible inputs, genuine failures are > 1e-3
 PROJ_SETS = [["s"], ["p"], ["s", "p"], ["sp3"], ["d"], ["t2g"], ["eg"], ["sp3d2"], ["pz"], ["sp2"], ["sp"], ["p2"], ["pxy"], ["s", "d"], ["sp2", "pz"]]
+MATS = ("Ham", "AA", "SS")
+INFO_CLAUSES = ("group_size", "class_recorded", "structure_ok", "shells_allowed", "group_complete")     # harness / irrep vs spec, not the code
 
 
 def site_orbits(st):
@@ -60,54 +71,146 @@ def site_orbits(st):
     return orbits
 
 
-def exact_replay(rep, st, counts):
-    """spec -> code : SymmetrizerSAWF / SymWann index maps of one structure"""
+# ----------------------------------------------------------------------------- adapters around private names of the package
+def build_symwann(st, rlist):
+    """real space group, SymmetrizerSAWF with one s-like projection per site orbit, SymWann on the R list"""
     from wannierberri.symmetry.sawf import SymmetrizerSAWF
     from wannierberri.symmetry.projections import Projection
     from wannierberri.symmetry.sym_wann_2 import SymWann
+    sg, op_of, lattice, positions = sc.real_spacegroup(st)
+    orbits = site_orbits(st)
+    projs = [Projection(position_num=positions[orb], orbital="s", spacegroup=sg, rotate_basis=False) for orb in orbits]
+    symm = SymmetrizerSAWF.from_spacegroup_and_projections(spacegroup=sg, projections=projs)
+    sw = SymWann(symmetrizer=symm, iRvec=[tuple(r) for r in rlist], silent=True)
+    return sg, op_of, positions, orbits, projs, symm, sw
+
+
+def block_orders(rep, projs, positions, orbits):
+    """for every block: the specification site of each point as the code ordered them (by position mod 1); the given order
+    if the projections do not expose their positions"""
+    ok, pos = sc.private(rep, "Projection.positions", lambda: [np.asarray(p.positions, dtype=float).reshape(-1, 3) for p in projs])
+    if not ok:
+        return [list(orb) for orb in orbits]
+    out = []
+    for orb, pp in zip(orbits, pos):
+        order = []
+        for p in pp:
+            d = [np.abs((p - positions[k] + 0.5) % 1 - 0.5).max() for k in orb]
+            a = int(np.argmin(d))
+            if d[a] > 1e-8:
+                return None
+            order.append(orb[a])
+        if sorted(order) != sorted(orb):
+            return None
+        out.append(order)
+    return out
+
+
+def irreducible_triples(rep, sw, b1, b2, rlist, ord1, ord2):
+    """find_irreducible_Rab -> set of triples (R, site a, site b) in the specification's site numbering; None if the method
+    is gone or returns something this adapter does not understand"""
+    with quiet():
+        good, irr = sc.guarded(rep, "SymWann.find_irreducible_Rab", dict(blocks=[ord1, ord2], rlist=[list(r) for r in rlist]), sw.find_irreducible_Rab, b1, b2)
+    if not good:
+        return None
+
+    def conv():
+        out = set()
+        for (a, b), s in irr.items():
+            for iR in s:
+                out.add((tuple(int(x) for x in rlist[int(iR)]), ord1[int(a)], ord2[int(b)]))
+        return out
+    ok, got = sc.private(rep, "find_irreducible_Rab:return", conv)
+    return got if ok else None
+
+
+def triple_orbits(st, ops, orb1, orb2):
+    """orbits of the listed triples (R, a, b), a in orb1, b in orb2, under the specification's tabulated action; images that
+    leave the R list are ignored (the operations form a group, so this is an equivalence on the listed triples)"""
+    rl = st["rlist"]
+    X = [(r, a, b) for r in range(len(rl)) for a in orb1 for b in orb2]
+    index = {rl[r]: r for r in range(len(rl))}
+    parent = {x: x for x in X}
+
+    def find(x):
+        while parent[x] != x:
+            parent[x] = parent[parent[x]]
+            x = parent[x]
+        return x
+    for n in ops:
+        for (r, a, b) in X:
+            y = st["tmap"][n][r][a][b]
+            R2 = tuple(y[0])
+            if R2 in index:
+                parent[find((r, a, b))] = find((index[R2], y[1] - 1, y[2] - 1))
+    groups = {}
+    for x in X:
+        groups.setdefault(find(x), set()).add((rl[x[0]], x[1], x[2]))
+    return list(groups.values())
+
+
+def exact_replay(rep, st, counts):
+    """spec -> code : SymmetrizerSAWF / SymWann index maps of one structure"""
+    detail = dict(structure=st["key"])
     with quiet(), warnings.catch_warnings():
         warnings.simplefilter("ignore")
-        sg, op_of, lattice, positions = sc.real_spacegroup(st)
-        orbits = site_orbits(st)
-        projs = [Projection(position_num=positions[orb], orbital="s", spacegroup=sg, rotate_basis=False) for orb in orbits]
-        symm = SymmetrizerSAWF.from_spacegroup_and_projections(spacegroup=sg, projections=projs)
-        sw = SymWann(symmetrizer=symm, iRvec=[tuple(r) for r in st["rlist"]], silent=True)
+        good, built = sc.guarded(rep, "SymmetrizerSAWF/SymWann", detail, build_symwann, st, st["rlist"])
+    if not good:
+        return
+    sg, op_of, positions, orbits, projs, symm, sw = built
+    orders = block_orders(rep, projs, positions, orbits)
+    if orders is None:
+        rep.violation("SymmetrizerSAWF:orbit", dict(detail, what="the points of a projection block are not the sites of the orbit given to it"))
+        return
+    okm, maps = sc.private(rep, "SymmetrizerSAWF.atommap_list", lambda: [np.asarray(symm.atommap_list[b]) for b in range(len(orbits))])
+    okt, shifts = sc.private(rep, "SymmetrizerSAWF.T_list", lambda: [np.asarray(symm.T_list[b]) for b in range(len(orbits))])
     nR = len(st["rlist"])
-    for b1, orb1 in enumerate(orbits):
-        loc1 = {k: n for n, k in enumerate(orb1)}
+    shift_eq = {1: True, -1: True}
+    for b1, ord1 in enumerate(orders):
         for isym, n in enumerate(op_of):
-            rep.case(("maps", st["key"], b1, isym))
-            counts["maps"] += 1
-            exp_map = [loc1[st["amap"][n][k]] for k in orb1]
-            exp_T = [list(st["tvec"][n][k]) for k in orb1]
-            got_map = [int(x) for x in symm.atommap_list[b1][:, isym]]
-            got_T = np.asarray(symm.T_list[b1][:, isym]).tolist()
-            if got_map != exp_map or got_T != exp_T:
-                rep.violation("SymmetrizerSAWF:atommap_T", dict(structure=st["key"], op=st["ops"][n], expected_map=exp_map, got_map=got_map,
-                                                                  expected_T=exp_T, got_T=got_T))
-        for b2, orb2 in enumerate(orbits):
-            loc2 = {k: n for n, k in enumerate(orb2)}
+            exp_map = [ord1.index(st["amap"][n][k]) for k in ord1]
+            exp_T = np.array([st["tvec"][n][k] for k in ord1])
+            if okm:
+                rep.case(("maps", st["key"], b1, isym))
+                counts["maps"] += 1
+                got_map = [int(x) for x in maps[b1][:, isym]]
+                if got_map != exp_map:
+                    rep.violation("SymmetrizerSAWF:atommap", dict(structure=st["key"], op=st["ops"][n], expected_map=exp_map, got_map=got_map))
+            if okt:
+                shift_eq[1] &= bool(np.array_equal(shifts[b1][:, isym], exp_T))
+                shift_eq[-1] &= bool(np.array_equal(shifts[b1][:, isym], -exp_T))
+        for b2, ord2 in enumerate(orders):
             for isym, n in enumerate(op_of):
-                Rm = sw.get_atom_R_map(sw.iRvec, isym, b1, b2)
-                exp = np.array([[[list(st["tmap"][n][r][a][b][0]) for b in orb2] for a in orb1] for r in range(nR)])
+                ok, Rm = sc.private(rep, "SymWann.get_atom_R_map", lambda: np.asarray(sw.get_atom_R_map(sw.iRvec, isym, b1, b2)))
+                if not ok:
+                    break
+                exp = np.array([[[list(st["tmap"][n][r][a][b][0]) for b in ord2] for a in ord1] for r in range(nR)])
                 rep.case(("rmap", st["key"], b1, b2, isym))
                 counts["rmap"] += 1
                 if Rm.shape != exp.shape or not np.array_equal(Rm, exp):
-                    rep.violation("SymWann:get_atom_R_map", dict(structure=st["key"], op=st["ops"][n], blocks=[orb1, orb2], rlist=st["rlist"],
-                                                                 expected=exp.tolist(), got=np.asarray(Rm).tolist()))
-            with quiet():
-                irr = sw.find_irreducible_Rab(b1, b2)
-            got = {(tuple(st["rlist"][iR]), orb1[a], orb2[b]) for (a, b), s in irr.items() for iR in s}
-            exp = {x for x in st["irr"] if x[1] in loc1 and x[2] in loc2}
+                    rep.violation("SymWann:triple_image", dict(structure=st["key"], op=st["ops"][n], blocks=[ord1, ord2], rlist=st["rlist"],
+                                                               expected=exp.tolist(), got=np.asarray(Rm).tolist()))
+            got = irreducible_triples(rep, sw, b1, b2, st["rlist"], ord1, ord2)
+            if got is None:
+                continue
+            orbs = triple_orbits(st, sorted(set(op_of)), ord1, ord2)
+            X = set().union(*orbs)
             rep.case(("irr", st["key"], b1, b2))
             counts["irr"] += 1
-            counts["irr_reduced"] += int(len(exp) < nR * len(orb1) * len(orb2))
-            if got != exp:
-                rep.violation("SymWann:find_irreducible_Rab", dict(structure=st["key"], blocks=[orb1, orb2], rlist=st["rlist"],
-                                                                   expected=sorted(exp), got=sorted(got)))
-    return sg, op_of
+            counts["irr_reduced"] += int(len(orbs) < len(X))
+            counts["irr_exactly_one"] += int(all(len(got & o) == 1 for o in orbs))
+            missing = [sorted(o)[0] for o in orbs if not (got & o)]
+            if missing or not got <= X:
+                rep.violation("SymWann:find_irreducible_Rab", dict(structure=st["key"], blocks=[ord1, ord2], rlist=st["rlist"],
+                                                                   orbits_not_represented=missing[:10], not_listed=sorted(got - X)[:10], got=sorted(got)))
+    if okt:
+        conv = 1 if shift_eq[1] else (-1 if shift_eq[-1] else 0)
+        counts["shift_convention"][str(conv)] = counts["shift_convention"].get(str(conv), 0) + 1
+        if conv == 0:
+            rep.violation("SymmetrizerSAWF:shifts", dict(structure=st["key"], what="the lattice shifts T are neither p_map(a) - g(p_a) nor its negative"))
 
 
+# ----------------------------------------------------------------------------- numeric: System_R.symmetrize
 def random_system(lattice, positions, names, proj, soc, nprs, nR=3):
     """a random Hermitian System_R whose Wannier functions follow proj (atom:shell), centres near the atomic sites"""
     from wannierberri.system.system_R import System_R
@@ -134,7 +237,7 @@ def random_system(lattice, positions, names, proj, soc, nprs, nR=3):
     s.num_wann = nw
     s.wannier_centers_cart = cent @ lattice
     s.rvec = Rvectors(lattice=lattice, iRvec=iRvec, shifts_left_red=s.wannier_centers_red)
-    for key in ("Ham", "AA", "SS"):
+    for key in MATS:
         shape = (len(iRvec), nw, nw) + ((3,) if key != "Ham" else ())
         X = nprs.rand(*shape) - 0.5 + 1j * (nprs.rand(*shape) - 0.5)
         X = 0.5 * (X + s.rvec.conj_XX_R(X))
@@ -148,7 +251,8 @@ def random_system(lattice, positions, names, proj, soc, nprs, nR=3):
 def as_function(system):
     """real-space matrices as dict key -> {R: matrix}, zero blocks dropped"""
     out = {}
-    for key, X in system._XX_R.items():
+    for key in MATS:
+        X = system.get_R_mat(key)
         out[key] = {tuple(int(x) for x in R): X[i] for i, R in enumerate(system.rvec.iRvec) if np.abs(X[i]).max() > 1e-14}
     return out
 
@@ -165,62 +269,21 @@ def diff_functions(f, g):
     return d
 
 
-def symmetrize_run(rep, st, shells, soc, nprs, counts):
-    """one System_R.symmetrize on a random Hermitian model of structure st; returns residuals (dict) or None if skipped"""
-    from wannierberri.evaluate_k import evaluate_k
-    lattice = np.diag(sc.CELL[st["lat"]])
-    positions = np.array(st["pos"], dtype=float) / sc.DEN
-    names = [f"X{t}" for t in st["types"]]
-    proj = [f"{nm}:{sh}" for nm in sorted(set(names)) for sh in shells]
-    magnetic = any(any(m) for m in st["mom"])
-    magmom = np.array(st["mom"], dtype=float) if magnetic else None
-    system = random_system(lattice, positions, names, proj, soc, nprs)
-    with quiet(), warnings.catch_warnings():
-        warnings.simplefilter("ignore")
-        symm = system.symmetrize(proj=proj, positions=positions, atom_name=names, soc=soc, magmom=magmom, silent=True)
-    key = (st["key"], tuple(shells), soc)
-    res = dict(energy=0.0, berry=0.0, spin=0.0, herm=0.0, centres=0.0, idem=0.0)
-    # Hermiticity
-    for k, X in system._XX_R.items():
-        res["herm"] = max(res["herm"], float(np.abs(X - system.rvec.conj_XX_R(X)).max()))
-    # covariance under every operation of the specification's point group (k' = +-W k; axial vectors, odd under time reversal)
-    pops = sorted({(W, tr) for W, _, tr in st["ops"]})
-    npoint = len(system.pointgroup.symmetries)
-    quantities = ["energy", "berry_curvature", "spin"]
-    kpt = None
-    for _ in range(20):
-        k0 = nprs.rand(3) * 0.8 + 0.1
-        with quiet():
-            r0 = evaluate_k(system, k=k0, quantities=quantities, return_single_as_dict=True)
-        E = np.sort(r0["energy"])
-        gaps = np.diff(E)
-        if np.all((gaps < 1e-9) | (gaps > 0.01)):       # named exclusion: no near-degenerate (but split) bands at the test point
-            kpt = k0
-            break
-        counts["k_skipped"] += 1
-    if kpt is None:
-        counts["no_kpoint"] += 1
-        return None, npoint
-    for W, tr in pops:
-        Wm = np.array(W, dtype=float)
-        sgn = -1.0 if tr else 1.0
-        k1 = sgn * Wm @ kpt
-        with quiet():
-            r1 = evaluate_k(system, k=k1, quantities=quantities, return_single_as_dict=True)
-        ax = np.linalg.det(Wm) * sgn
-        res["energy"] = max(res["energy"], float(np.abs(r1["energy"] - r0["energy"]).max()))
-        res["berry"] = max(res["berry"], float(np.abs(r1["berry_curvature"] - ax * r0["berry_curvature"] @ Wm.T).max()))
-        res["spin"] = max(res["spin"], float(np.abs(r1["spin"] - ax * r0["spin"] @ Wm.T).max()))
-        counts["ops_checked"] += 1
-    # the library's own check must agree
-    with quiet():
-        errs, _ = system.check_symmetry(kpoint=kpt)
-    res["library_check"] = float(max(errs.values()))
-    # centres: fixed point of the symmetrizer, and images of s-like (one-dimensional signed) orbitals
-    if symm is not None:
-        wcc = system.wannier_centers_cart
-        res["centres"] = float(np.abs(symm.symmetrize_WCC(wcc) - wcc).max())
+def group_sums(E, X):
+    """per-band quantity X (nb, ...) summed over groups of exactly degenerate bands (E sorted ascending): independent of the
+    basis chosen inside a degenerate subspace and of whether the library averages over it"""
+    order = np.argsort(E)
+    E, X = np.asarray(E)[order], np.asarray(X)[order]
+    starts = [0] + [i + 1 for i, g in enumerate(np.diff(E)) if g >= 1e-9]
+    return np.array([X[a:b].sum(axis=0) for a, b in zip(starts, starts[1:] + [len(E)])])
+
+
+def centre_images(rep, symm, system):
+    """largest distance between the image of a centre under an operation and the centre of the Wannier function it is
+    mapped onto (orbitals mapped onto +-one orbital of the image site); None if the private tables are gone"""
+    def run():
         wred = system.wannier_centers_red
+        worst = 0.0
         for isym, symop in enumerate(symm.spacegroup.symmetries):
             for blk, (ws, _) in enumerate(symm.D_wann_block_indices):
                 rot = symm.rot_orb_list[blk]
@@ -233,37 +296,121 @@ def symmetrize_run(rep, st, shells, soc, nprs, counts):
                         col = np.abs(D[:, i])
                         j = int(np.argmax(col))
                         if abs(col[j] - 1) < 1e-9:       # orbital i is mapped onto +-orbital j of the image site
-                            img = symop.transform_r(wred[ws + a * norb + i]) + T[a]
-                            res["centres"] = max(res["centres"], float(np.abs(img - wred[ws + amap[a] * norb + j]).max()))
-        # idempotence
-        before = as_function(system)
-        w0 = system.wannier_centers_cart.copy()
-        with quiet(), warnings.catch_warnings():
-            warnings.simplefilter("ignore")
-            system.symmetrize2(symm, silent=True)
-        res["idem"] = max(diff_functions(before, as_function(system)), float(np.abs(system.wannier_centers_cart - w0).max()))
-    else:
+                            d = symop.transform_r(wred[ws + a * norb + i]) - wred[ws + amap[a] * norb + j]
+                            worst = max(worst, float(np.abs(d - np.round(d)).max()))     # modulo lattice vectors: no shift convention
+        return worst
+    ok, w = sc.private(rep, "SymmetrizerSAWF tables (centre images)", run)
+    return w if ok else None
+
+
+def symmetrize_run(rep, st, shells, soc, nprs, counts):
+    """one System_R.symmetrize on a random Hermitian model of structure st; returns residuals (dict) or None if skipped"""
+    from wannierberri.evaluate_k import evaluate_k
+    lattice = sc.lattice_of(st["lat"])
+    linvT = np.linalg.inv(lattice).T
+    positions = np.array(st["pos"], dtype=float) / sc.DEN
+    names = [f"X{t}" for t in st["types"]]
+    proj = [f"{nm}:{sh}" for nm in sorted(set(names)) for sh in shells]
+    magnetic = any(any(m) for m in st["mom"])
+    magmom = np.array(st["mom"], dtype=float) if magnetic else None
+    system = random_system(lattice, positions, names, proj, soc, nprs)
+    detail = dict(structure=st["key"], lattice=lattice.tolist(), positions=positions.tolist(), atom_name=names, proj=proj, soc=soc,
+                  magmom=None if magmom is None else magmom.tolist())
+    with quiet(), warnings.catch_warnings():
+        warnings.simplefilter("ignore")
+        good, symm = sc.guarded(rep, "System_R.symmetrize", detail, system.symmetrize, proj=proj, positions=positions, atom_name=names, soc=soc,
+                                magmom=magmom, silent=True)
+    if not good:
+        return None
+    key = (st["key"], tuple(shells), soc)
+    res = dict(energy=0.0, berry=0.0, spin=0.0, herm=0.0, centres=0.0, idem=0.0)
+    # Hermiticity
+    for k in MATS:
+        X = system.get_R_mat(k)
+        res["herm"] = max(res["herm"], float(np.abs(X - system.rvec.conj_XX_R(X)).max()))
+    # covariance under every operation of the specification's point group (k' = +-W^-T k; axial vectors, odd under time reversal)
+    pops = sorted({(W, tr) for W, _, tr in st["ops"]})
+    quantities = ["energy", "berry_curvature", "spin"]
+    kpt = None
+    for _ in range(40):
+        k0 = nprs.rand(3) * 0.8 + 0.1
+        with quiet():
+            good, r0 = sc.guarded(rep, "evaluate_k(symmetrized system)", dict(detail, k=k0.tolist()), evaluate_k, system, k=k0, quantities=quantities,
+                                  return_single_as_dict=True)
+        if not good:
+            return None
+        gaps = np.diff(np.sort(r0["energy"]))
+        if np.all((gaps < 1e-9) | (gaps > MIN_GAP)):       # named exclusion: no near-degenerate (but split) bands at the test point
+            kpt = k0
+            break
+        counts["k_skipped"] += 1
+    if kpt is None:
+        counts["no_kpoint"] += 1
+        return None
+    E0 = r0["energy"]
+    for W, tr in pops:
+        Wm = np.array(W, dtype=float)
+        Wc = lattice.T @ Wm @ linvT                      # Cartesian matrix of the lattice operation
+        sgn = -1.0 if tr else 1.0
+        k1 = sgn * np.linalg.inv(Wm).T @ kpt
+        with quiet():
+            good, r1 = sc.guarded(rep, "evaluate_k(symmetrized system)", dict(detail, k=k1.tolist()), evaluate_k, system, k=k1, quantities=quantities,
+                                  return_single_as_dict=True)
+        if not good:
+            return None
+        ax = np.linalg.det(Wc) * sgn
+        res["energy"] = max(res["energy"], float(np.abs(np.sort(r1["energy"]) - np.sort(E0)).max()))
+        res["berry"] = max(res["berry"], float(np.abs(group_sums(r1["energy"], r1["berry_curvature"]) - ax * group_sums(E0, r0["berry_curvature"]) @ Wc.T).max()))
+        res["spin"] = max(res["spin"], float(np.abs(group_sums(r1["energy"], r1["spin"]) - ax * group_sums(E0, r0["spin"]) @ Wc.T).max()))
+        counts["ops_checked"] += 1
+    # the library's own check and its group size: information only
+    try:
+        with quiet():
+            errs, _ = system.check_symmetry(kpoint=kpt)
+        res["library_check"] = float(max(errs.values()))
+        counts["library_group_differs"] += int(len(system.pointgroup.symmetries) != len(pops))
+        counts["library_check_disagrees"] += int(res["library_check"] > TOL_BERRY and max(res["energy"], res["berry"], res["spin"]) <= TOL)
+    except Exception as ex:
+        counts["library_check_unavailable"] += 1
+        rep.part("library_check", note=f"{type(ex).__name__}: {ex}"[:200])
+    if symm is None:
         raise MachineryError("symmetrize returned no symmetrizer")
+    # centres: fixed point of the symmetrizer, and images of orbitals that are mapped onto single orbitals
+    wcc = system.wannier_centers_cart
+    ok, w2 = sc.private(rep, "SymmetrizerSAWF.symmetrize_WCC", lambda: np.asarray(symm.symmetrize_WCC(wcc)))
+    if ok:
+        res["centres"] = float(np.abs(w2 - wcc).max())
+    ci = centre_images(rep, symm, system)
+    if ci is not None:
+        res["centres"] = max(res["centres"], ci)
+    counts["centres_checked"] += int(ok or ci is not None)
+    # idempotence
+    before = as_function(system)
+    w0 = system.wannier_centers_cart.copy()
+    with quiet(), warnings.catch_warnings():
+        warnings.simplefilter("ignore")
+        good, _ = sc.guarded(rep, "System_R.symmetrize2", detail, system.symmetrize2, symm, silent=True)
+    if not good:
+        return None
+    res["idem"] = max(diff_functions(before, as_function(system)), float(np.abs(system.wannier_centers_cart - w0).max()))
     rep.case(("symmetrize",) + key)
     counts["runs"] += 1
     counts["soc"] += int(soc)
     counts["magnetic"] += int(magnetic)
+    counts["hexagonal"] += int(st["lat"] == "hex")
     mixed_class = bool(st["mixed"]) and any(sh in ("d", "eg") for sh in shells)
     res["mixed_class"] = mixed_class
+    res["nops"] = len(pops)
     for nm in ("energy", "berry", "spin", "herm", "centres", "idem"):
         if res[nm] > (TOL_BERRY if nm == "berry" else TOL):
             keyname = "mixed_centres" if (mixed_class and nm in ("berry", "centres", "idem")) else nm
-            rep.violation(f"System_R.symmetrize:{keyname}", dict(structure=st["key"], lattice=lattice.tolist(), positions=positions.tolist(), atom_name=names,
-                                                            proj=proj, soc=soc, magmom=None if magmom is None else magmom.tolist(),
-                                                            kpoint=kpt.tolist(), residuals=res, numpy_seed="see evidence seed"))
+            rep.violation(f"System_R.symmetrize:{keyname}", dict(detail, kpoint=kpt.tolist(), residuals=res, numpy_seed="see evidence seed"))
     counts["mixed_class"] += int(mixed_class)
-    if res["library_check"] > TOL_BERRY and max(res["energy"], res["berry"], res["spin"]) <= TOL:
-        rep.violation("System.check_symmetry:disagrees", dict(structure=st["key"], proj=proj, soc=soc, residuals=res))
-    return res, npoint
+    return res
 
 
 def random_structure(rng):
-    lat = rng.choice(["cubic", "tetra", "ortho"])
+    lat = rng.choice(["cubic", "tetra", "ortho", "hex"])
     ns = rng.choice([2, 3, 3])
     pos = []
     while len(pos) < ns:
@@ -274,13 +421,14 @@ def random_structure(rng):
     return dict(lat=lat, types=types, pos=pos, mom=[(0, 0, 0)] * ns, nsites=ns, key=(lat, tuple(types), tuple(pos), ((0, 0, 0),) * ns))
 
 
-def struct_record(st, rng):
+def struct_record(rep, st, rng):
     """code -> spec: everything is read from the real irrep / wannierberri objects"""
     from irrep.spacegroup import SpaceGroup
+    from irrep.symmetry_operation import get_atom_map
     from wannierberri.symmetry.sawf import SymmetrizerSAWF
     from wannierberri.symmetry.projections import Projection
     from wannierberri.symmetry.sym_wann_2 import SymWann
-    lattice = np.diag(sc.CELL[st["lat"]])
+    lattice = sc.lattice_of(st["lat"])
     positions = np.array(st["pos"], dtype=float) / sc.DEN
     with quiet(), warnings.catch_warnings():
         warnings.simplefilter("ignore")
@@ -294,107 +442,147 @@ def struct_record(st, rng):
     if any(o["W"] == [[1, 0, 0], [0, 1, 0], [0, 0, 1]] and not o["tr"] and any(o["t"]) for o in ops):
         return None        # not a primitive cell (named exclusion PrimitiveCell)
     ns = st["nsites"]
-    # orbits from the real group
-    from irrep.symmetry_operation import get_atom_map
-    amap, tvec = [], []
+    # site maps of the real group (irrep), used to form the orbits
+    amap0 = []
     for symop in sg.symmetries:
         m = [-1] * ns
-        t = [[0, 0, 0]] * ns
         for ty in set(st["types"]):
             glob = [k for k in range(ns) if st["types"][k] == ty]
-            mm, tt = get_atom_map(symop=symop, positions=positions[glob])
+            mm, _ = get_atom_map(symop=symop, positions=positions[glob])
             for n, k in enumerate(glob):
                 m[k] = glob[int(mm[n])]
-                t[k] = [int(x) for x in tt[n]]
-        amap.append(m)
-        tvec.append(t)
+        amap0.append(m)
     orbits, seen = [], set()
     for k in range(ns):
         if k not in seen:
-            orb = sorted({m[k] for m in amap})
+            orb = sorted({m[k] for m in amap0})
             seen.update(orb)
             orbits.append(orb)
     rlist = [(0, 0, 0), (1, 0, 0), (0, 0, 1), (-1, 1, 0), (0, -1, -1), (2, 0, 0)]
-    with quiet(), warnings.catch_warnings():
-        warnings.simplefilter("ignore")
+
+    def build():
         projs = [Projection(position_num=positions[orb], orbital="s", spacegroup=sg, rotate_basis=False) for orb in orbits]
         symm = SymmetrizerSAWF.from_spacegroup_and_projections(spacegroup=sg, projections=projs)
-        sw = SymWann(symmetrizer=symm, iRvec=rlist, silent=True)
-    # the wannierberri maps must be the ones recorded (Dwann uses the same irrep function; compare to be sure)
-    for b, orb in enumerate(orbits):
-        for isym in range(len(ops)):
-            if [orb[int(x)] for x in symm.atommap_list[b][:, isym]] != [amap[isym][k] for k in orb]:
-                raise MachineryError("atommap of SymmetrizerSAWF differs from irrep.get_atom_map on the same positions")
+        return projs, symm, SymWann(symmetrizer=symm, iRvec=rlist, silent=True)
+    with quiet(), warnings.catch_warnings():
+        warnings.simplefilter("ignore")
+        good, built = sc.guarded(rep, "SymmetrizerSAWF/SymWann", dict(structure=st["key"]), build)
+    if not good:
+        return None
+    projs, symm, sw = built
+    orders = block_orders(rep, projs, positions, orbits)
+    if orders is None:
+        rep.violation("SymmetrizerSAWF:orbit", dict(structure=st["key"], what="the points of a projection block are not the sites of the orbit given to it"))
+        return None
+    # the maps and shifts as wannierberri holds them (site numbering of the record = the specification's)
+    def tables():
+        amap = [[-1] * ns for _ in ops]
+        tvec = [[[0, 0, 0]] * ns for _ in ops]
+        for b, order in enumerate(orders):
+            for isym in range(len(ops)):
+                for a, k in enumerate(order):
+                    amap[isym][k] = order[int(symm.atommap_list[b][a, isym])]
+                    tvec[isym][k] = [int(x) for x in symm.T_list[b][a, isym]]
+        return amap, tvec
+    ok, tab = sc.private(rep, "SymmetrizerSAWF.atommap_list/T_list", tables)
+    if not ok:
+        return None
+    amap, tvec = tab
     b1, b2 = rng.randrange(len(orbits)), rng.randrange(len(orbits))
     rmap = []
     for _ in range(12):
         isym = rng.randrange(len(ops))
-        Rm = sw.get_atom_R_map(sw.iRvec, isym, b1, b2)
-        iR, a, b = rng.randrange(len(rlist)), rng.randrange(len(orbits[b1])), rng.randrange(len(orbits[b2]))
-        rmap.append(dict(op=isym, R=list(rlist[iR]), a=orbits[b1][a], b=orbits[b2][b], R2=[int(x) for x in Rm[iR, a, b]],
-                         a2=orbits[b1][int(symm.atommap_list[b1][a, isym])], b2=orbits[b2][int(symm.atommap_list[b2][b, isym])]))
-    with quiet():
-        irr = sw.find_irreducible_Rab(b1, b2)
-    irr_l = sorted([list(rlist[iR]), orbits[b1][a], orbits[b2][b]] for (a, b), s in irr.items() for iR in s)
+        ok, Rm = sc.private(rep, "SymWann.get_atom_R_map", lambda: np.asarray(sw.get_atom_R_map(sw.iRvec, isym, b1, b2)))
+        if not ok:
+            break
+        iR, a, b = rng.randrange(len(rlist)), rng.randrange(len(orders[b1])), rng.randrange(len(orders[b2]))
+        ka, kb = orders[b1][a], orders[b2][b]
+        rmap.append(dict(op=isym, R=list(rlist[iR]), a=ka, b=kb, R2=[int(x) for x in Rm[iR, a, b]], a2=amap[isym][ka], b2=amap[isym][kb]))
+    got = irreducible_triples(rep, sw, b1, b2, rlist, orders[b1], orders[b2])
+    if got is None:
+        return None
+    irr_l = sorted([list(R), a, b] for R, a, b in got)
     return dict(fn="struct", lat=st["lat"], sites=[dict(type=t, pos=list(p), mom=[0, 0, 0]) for t, p in zip(st["types"], st["pos"])],
-                ops=ops, amap=amap, tvec=tvec, rlist=[list(r) for r in rlist], blockA=orbits[b1], blockB=orbits[b2], rmap=rmap, irr=irr_l)
+                ops=ops, amap=amap, tvec=tvec, rlist=[list(r) for r in rlist], blockA=sorted(orders[b1]), blockB=sorted(orders[b2]), rmap=rmap, irr=irr_l)
 
 
 REC_CFG = "SPECIFICATION RecSpec\nCONSTANTS\n  DEN = %d\nINVARIANT Report\nCHECK_DEADLOCK FALSE\n" % sc.DEN
+NW = {"s": 1, "p": 3, "d": 5, "sp3": 4, "t2g": 3, "eg": 2, "sp3d2": 6, "pz": 1, "sp2": 3, "sp": 2, "p2": 2, "pxy": 2}
 
 
 def check(pid, tier):
     rep = Report(pid, tier, "exploration")
+    try:
+        return _check(rep, tier)
+    except Exception:
+        if rep.violations:
+            rep.finish()
+        raise
+    finally:
+        sc.cleanup(keep=bool(rep.violations))
+
+
+def _check(rep, tier):
     thorough = tier == "thorough"
     rng = random.Random(seed() * 7919 + 20)
     nprs = np.random.RandomState(seed() * 31 + 20)
     rep.rule("TLC enumerates a catalogue of structures (lattice type x 1-2 sites x species x positions with denominator 4, optionally "
-             "magnetic moments); a case = one (structure, block, operation) index map or irreducible set compared exactly with "
+             "magnetic moments); a case = one (structure, block, operation) index map or set of irreducible triples compared with "
              "SymmetrizerSAWF/SymWann, one System_R.symmetrize run (structure x projection set x soc) checked numerically, or one "
              "recorded structure / run validated by TLC; distinct by these tuples")
     rep.assume("starting models are random Hermitian matrices (Ham, AA, SS) on an R set closed under negation, centres within 0.05 of the sites")
-    rep.assume("covariance is tested at random k-points without near-degenerate split bands (gaps < 1e-9 or > 0.01)")
-    rep.assume("projection shells are restricted to those the specification admits for the structure (SymOrbits!ShellAllowed)")
+    rep.assume(f"covariance is tested at random k-points without near-degenerate split bands (gaps < 1e-9 or > {MIN_GAP}); per-band quantities are "
+               "compared as sums over exactly degenerate groups")
+    rep.assume("projection shells are restricted to those the specification admits for the structure (SymOrbits!ShellAllowedIn)")
 
-    lats, nsites, poscat = (["cubic", "tetra", "ortho"], [1, 2], "small") if thorough else (["cubic", "tetra"], [1, 2], "tiny")
-    sts, structs, excl = sc.symorb_structures("c20_symorb", lats, nsites, poscat)
+    lats, nsites, poscat = (["cubic", "tetra", "ortho", "hex"], [1, 2], "small") if thorough else (["tetra", "hex"], [1, 2], "tiny")
+    sts, structs, excl = sc.symorb_structures(sc.uniq("c20_symorb"), lats, nsites, poscat)
     if ftable.spec_violation(rep, sts, "c20_symorb"):
         return rep.finish()
     rep.add_tlc("c20_symorb", sts)
-    stm, mstructs, mexcl = sc.symorb_structures("c20_symorb_mag", ["tetra", "ortho"] if thorough else ["tetra"], [1, 2],
+    stm, mstructs, mexcl = sc.symorb_structures(sc.uniq("c20_symorb_mag"), ["tetra", "ortho"] if thorough else ["tetra"], [1, 2],
                                                  "tiny" if thorough else "pair", magnetic="zx" if thorough else "z")
     if ftable.spec_violation(rep, stm, "c20_symorb_mag"):
         return rep.finish()
     rep.add_tlc("c20_symorb_mag", stm)
     mstructs = [s for s in mstructs if any(any(m) for m in s["mom"])]
-    stc, cstructs, _ = sc.symorb_structures("c20_symorb_c3v", ["cubic"], [2], "c3v")
+    stc, cstructs, _ = sc.symorb_structures(sc.uniq("c20_symorb_c3v"), ["cubic"], [2], "c3v")
     if ftable.spec_violation(rep, stc, "c20_symorb_c3v"):
         return rep.finish()
     rep.add_tlc("c20_symorb_c3v", stc)
     cstructs = [s for s in cstructs if s["mixed"]]
     if not cstructs:
         raise MachineryError("the catalogue lacks a polar site whose group mixes dz2 and dx2-y2")
-    rep.part("structures", nonmagnetic=len(structs), magnetic=len(mstructs), excluded_nonprimitive=excl + mexcl,
-             nonsymmorphic_like=sum(1 for s in structs if any(any(t) for _, t, _ in s["ops"])))
-    if not structs or not mstructs:
-        raise MachineryError("empty structure catalogue")
+    hstructs = [s for s in structs if s["lat"] == "hex"]
+    ostructs = [s for s in structs if s["lat"] != "hex"]
+    rep.part("structures", nonmagnetic=len(structs), hexagonal=len(hstructs), magnetic=len(mstructs), excluded_nonprimitive=excl + mexcl,
+             with_fractional_translations=sum(1 for s in structs if any(any(t) for _, t, _ in s["ops"])))
+    if not ostructs or not mstructs or not hstructs:
+        raise MachineryError("empty structure catalogue (orthogonal / magnetic / hexagonal)")
 
-    # ---------------- spec -> code : exact index maps
-    counts = dict(maps=0, rmap=0, irr=0, irr_reduced=0)
-    sel = structs if thorough else rng.sample(structs, min(len(structs), 16))
+    # ---------------- spec -> code : index maps
+    counts = dict(maps=0, rmap=0, irr=0, irr_reduced=0, irr_exactly_one=0, shift_convention={}, structures=0, magnetic=0, hexagonal=0)
+    if thorough:
+        sel = structs + cstructs + mstructs
+    else:
+        sel = rng.sample(ostructs, min(len(ostructs), 4)) + rng.sample(hstructs, min(len(hstructs), 3)) + cstructs[:1] + rng.sample(mstructs, min(len(mstructs), 2))
     for st in sel:
         exact_replay(rep, st, counts)
-    if counts["irr_reduced"] == 0 or counts["rmap"] == 0:
+        counts["structures"] += 1
+        counts["magnetic"] += int(any(any(m) for m in st["mom"]))
+        counts["hexagonal"] += int(st["lat"] == "hex")
+    if (counts["irr_reduced"] == 0 or counts["rmap"] == 0) and not rep.violations and "skipped_private" not in rep.parts:
         raise MachineryError("exact replay never met a reducible triple")
     rep.part("exact_replay", **counts)
     rep.sample(dict(structure=sel[0]["key"], n_ops=len(sel[0]["ops"]), irreducible_triples=len(sel[0]["irr"])))
 
     # ---------------- numeric : System_R.symmetrize
-    ncounts = dict(runs=0, soc=0, magnetic=0, ops_checked=0, k_skipped=0, skipped=0, no_kpoint=0, mixed_class=0)
+    ncounts = dict(runs=0, soc=0, magnetic=0, hexagonal=0, ops_checked=0, k_skipped=0, skipped=0, no_kpoint=0, mixed_class=0, centres_checked=0,
+                   library_group_differs=0, library_check_disagrees=0, library_check_unavailable=0)
     recs = []
     maxres = {}
     plan = []
-    pool = structs if thorough else rng.sample(structs, min(len(structs), 9))
+    pool = structs if thorough else rng.sample(ostructs, min(len(ostructs), 6)) + rng.sample(hstructs, min(len(hstructs), 3))
     for n, st in enumerate(pool):
         ok = [ps for ps in PROJ_SETS if all(sh in st["shells"] for sh in ps)]
         for ps in (rng.sample(ok, min(len(ok), 3 if thorough else 1))):
@@ -407,57 +595,89 @@ def check(pid, tier):
         ok = [ps for ps in PROJ_SETS[:5] if all(sh in st["shells"] for sh in ps)]
         plan.append((st, rng.choice(ok), True))
     for st, ps, soc in plan:
-        nw = sum({"s": 1, "p": 3, "d": 5, "sp3": 4, "t2g": 3, "eg": 2, "sp3d2": 6, "pz": 1, "sp2": 3, "sp": 2, "p2": 2, "pxy": 2}[sh] for sh in ps) * st["nsites"] * (2 if soc else 1)
+        nw = sum(NW[sh] for sh in ps) * st["nsites"] * (2 if soc else 1)
         if nw > (24 if thorough else 16):
             ncounts["skipped"] += 1
             continue
-        res, npoint = symmetrize_run(rep, st, ps, soc, nprs, ncounts)
+        res = symmetrize_run(rep, st, ps, soc, nprs, ncounts)
         if res is None:
             ncounts["skipped"] += 1
             continue
         for k, v in res.items():
-            if k != "mixed_class" and not res["mixed_class"]:
+            if k not in ("mixed_class", "nops") and not res["mixed_class"]:
                 maxres[k] = max(maxres.get(k, 0.0), v)
         recs.append(dict(fn="symm", lat=st["lat"], sites=[dict(type=t, pos=list(p), mom=list(m)) for t, p, m in zip(st["types"], st["pos"], st["mom"])],
-                         shells=list(ps), soc=soc, npoint=npoint, mixed_class=bool(res["mixed_class"]), b_energy=sc.bucket(res["energy"]), b_berry=sc.bucket(res["berry"]),
+                         shells=list(ps), soc=soc, nops=res["nops"], mixed_class=bool(res["mixed_class"]), b_energy=sc.bucket(res["energy"]), b_berry=sc.bucket(res["berry"]),
                          b_spin=sc.bucket(res["spin"]), b_herm=sc.bucket(res["herm"]), b_centres=sc.bucket(res["centres"]), b_idem=sc.bucket(res["idem"])))
-    if ncounts["runs"] == 0 or ncounts["soc"] == 0 or ncounts["magnetic"] == 0 or ncounts["runs"] == ncounts["soc"]:
-        raise MachineryError(f"symmetrize runs do not cover soc / no soc / magnetic: {ncounts}")
+    if not rep.violations and (ncounts["runs"] == 0 or ncounts["soc"] == 0 or ncounts["magnetic"] == 0 or ncounts["runs"] == ncounts["soc"] or ncounts["hexagonal"] == 0):
+        raise MachineryError(f"symmetrize runs do not cover soc / no soc / magnetic / hexagonal: {ncounts}")
     rep.part("numeric_only", what="System_R.symmetrize on random Hermitian models: E(gk)=E(k), curvature/spin covariance for every (W, TR) of the "
-                                  "specification's point group, Hermiticity, centre images, idempotence; tolerance 1e-8", counts=ncounts, max_residual=maxres)
-    rep.sample(recs[0])
+                                  f"specification's point group, Hermiticity, centre images, idempotence; tolerance {TOL:g} (Berry curvature {TOL_BERRY:g} at band "
+                                  f"gaps >= {MIN_GAP}); library_* counters are information (System.check_symmetry, size of system.pointgroup)",
+             counts=ncounts, max_residual=maxres)
+    if recs:
+        rep.sample(recs[0])
+    nsymm = len(recs)
 
-    # ---------------- code -> spec : structures outside the catalogue + run residuals
+    # ---------------- code -> spec : structures outside the catalogue + run residuals (+ the corrupted records of the self-test)
     nstruct = 60 if thorough else 8
     tries = 0
     while nstruct > 0 and tries < 2000:
         tries += 1
         st = random_structure(rng)
-        r = struct_record(st, rng)
+        r = struct_record(rep, st, rng)
         if r is None:
+            if "skipped_private" in rep.parts and tries > 20 and not any(x["fn"] == "struct" for x in recs):
+                break
             continue
         recs.append(r)
         rep.case(("rec_struct", st["key"]))
         nstruct -= 1
-    stv, bad = ftable.validate_records("SymOrbitsRec.tla", REC_CFG, recs, "c20")
-    rep.add_tlc("c20_records", stv)
-    rep.add_traces(len(recs))
+    if not recs:
+        if rep.violations:
+            return rep.finish()
+        raise MachineryError("nothing was recorded")
+    nreal = len(recs)
+    selftest = {}
+    srecs = [r for r in recs if r["fn"] == "struct"]
+    if srecs:
+        srec = copy.deepcopy(srecs[0])
+        srec["tvec"][1][0][0] += 1
+        selftest[len(recs)] = "shifts"
+        recs.append(srec)
+        srec2 = copy.deepcopy(srecs[0])
+        srec2["irr"] = []
+        selftest[len(recs)] = "irreducible"
+        recs.append(srec2)
+    nrecs = [r for r in recs[:nreal] if r["fn"] == "symm" and not r["mixed_class"]]
+    if nrecs:
+        nrec = copy.deepcopy(nrecs[0])
+        nrec["b_idem"] = 12
+        selftest[len(recs)] = "idempotent"
+        recs.append(nrec)
+    stv, bad = ftable.validate_records("SymOrbitsRec.tla", REC_CFG, recs, sc.uniq("c20"))
+    rep.add_tlc("c20_records", dict(stv, distinct=stv["distinct"] - len(selftest), generated=stv["generated"] - 2 * len(selftest)))
+    rep.add_traces(nreal)
+    for i, clause in selftest.items():
+        if clause not in bad.get(i, []):
+            raise MachineryError(f"binding self-test failed: corrupted record accepted ({clause}: {bad.get(i)})")
+    rep.part("binding_selftest", corrupted_records_rejected={str(i - nreal): bad.get(i) for i in selftest})
+    info = {}
     for i, clauses in bad.items():
+        if i >= nreal:
+            continue
         r = recs[i]
-        if r["fn"] == "symm" and clauses == ["mixed_centres"]:
-            rep.violation("System_R.symmetrize:mixed_centres", dict(record=r, failing_clauses=clauses))
+        for c in clauses:
+            if c in INFO_CLAUSES:
+                info[c] = info.get(c, 0) + 1
+        hard = sorted(c for c in clauses if c not in INFO_CLAUSES)
+        if not hard:
+            continue
+        if r["fn"] == "symm" and hard == ["mixed_centres"]:
+            rep.violation("System_R.symmetrize:mixed_centres", dict(record=r, failing_clauses=hard))
             continue
         site = "System_R.symmetrize" if r["fn"] == "symm" else "SymWann"
-        rep.violation(f"{site}:recorded:{'+'.join(sorted(clauses))}", dict(record=r, failing_clauses=clauses))
-    # binding self-test
-    srec = copy.deepcopy([r for r in recs if r["fn"] == "struct"][0])
-    srec["tvec"][1][0][0] += 1
-    srec2 = copy.deepcopy([r for r in recs if r["fn"] == "struct"][0])
-    srec2["irr"] = srec2["irr"][:-1]
-    nrec = copy.deepcopy([r for r in recs if r["fn"] == "symm" and not r["mixed_class"]][0])
-    nrec["b_idem"] = 12
-    _, bb = ftable.validate_records("SymOrbitsRec.tla", REC_CFG, [srec, srec2, nrec], "c20_selftest")
-    if "shifts" not in bb.get(0, []) or "irreducible" not in bb.get(1, []) or "idempotent" not in bb.get(2, []):
-        raise MachineryError(f"binding self-test failed: corrupted records accepted ({bb})")
-    rep.part("binding_selftest", corrupted_records_rejected=bb)
+        rep.violation(f"{site}:recorded:{'+'.join(hard)}", dict(record=r, failing_clauses=hard))
+    if info:
+        raise MachineryError(f"harness / irrep disagree with the specification about the inputs themselves: {info}")
     return rep.finish()
